@@ -151,3 +151,7 @@ mod tests {
         assert_eq!(chain.gts, chain2.gts);
     }
 }
+
+#[cfg(all(test, saito_verif))]
+#[path = "/verif/replay/in_crate/ghost_chain_sync.rs"]
+mod verif_replay;
